@@ -96,8 +96,8 @@ def empty_state(ctx) -> None:
         muts += [s for s in graph.statements() if any(core.src(c.func) in ('self.__dict__.update', 'self.set_params') or (isinstance(c.func, ast.Attribute) and c.func.attr.startswith('set_') and core.src(c.func.value).startswith('self.')) for c in cfg.header_calls(s))]
         ok = True
         for m in muts:
-            gs = cfg.guards(m, fn.node)
-            guarded = any((pol and core.src(t) == param) or ((not pol) and core.src(t) == f'not {param}') for t, pol in gs)
+            gs = cfg.cguards(m, fn.node, siblings=True)
+            guarded = (param, True) in gs
             ok = ok and guarded
         ctx.check(ok, 'C13.empty-state', fn, f'{ci.qual}.set_state leaves the actor untouched for an empty state ({len(muts)} mutation(s) all under a non-empty guard)', fn.node, key=f'{ci.qual}:empty')
     ctx.floor('C13.set_state-impls', n, 2)
